@@ -9,14 +9,16 @@ PROP = dict(
     n=dict(quick=8000, thorough=200000),
     exhaustive=dict(quick=False, thorough=False),
     rule="lines generated from the grammar: every flow word; every event kind (Down, Up, Press, Enc, Abs, Speed, Raw) x 6 ids "
-         "(incl. leading zero, 2^32-1) with and without each edge suffix, signed/unsigned values at 19 boundaries; map; every "
+         "(incl. leading zero, 2^32-1) with and without each edge suffix (binary AND value events), signed/unsigned values at 19 boundaries; 16 HWC# lines with an unknown kind word alone and between events; map; every "
          "one of the 29 keys; numbers at 19 boundaries for every numeric key; capability lists in random orders with "
          "duplicates; SysStat lines with any subset/order of the 20 fields, floats in 5 notations; ;-lists with padded/empty "
          "items; registers; sequences of 2-8 lines with non-grammar lines interleaved; 42 non-grammar samples + random; "
          "78 near-miss lines (grammar keyword, malformed arguments: tag B:ood, correspondence only); random concatenations of grammar tokens "
-         "(regex fuzz, correspondence only). "
+         "(regex fuzz, correspondence only); dout.rx / dout.match: the library's real regexps (go:linkname) against the model's byte matchers, "
+         "bounded-exhaustive (token strings up to length 3 (quick) / 4-5 (thorough) after each keyword prefix, all 29 keys x value strings, glued keys, "
+         "all single edits of valid lines, double edits sampled (quick) / all over a reduced alphabet (thorough)). "
          "non-trivial = some decoded message is non-empty; distinct = distinct record text",
-    trusted_base=["regexp: the four patterns are hand-written byte matchers in the model (leftmost-first, '.' = one rune or invalid byte, never LF, '$' = end of text); equivalence validated by the correspondence incl. near-miss lines, and regex_sources_tie pins the pattern texts",
+    trusted_base=["regexp: the four patterns are hand-written byte matchers in the model (leftmost-first, '.' = one rune or invalid byte, never LF, '$' = end of text); equivalence with the library's real compiled regexps validated by bounded-exhaustive dout.match records + near-miss lines; regex_sources_tie / regex_alternations_tie pin the pattern texts and their alternation lists",
                   "strconv.ParseFloat(…,32) and encoding/json (networkConfigFromString) enter as oracle values computed by the harness",
                   "strconv.Atoi incl. overflow clamp, strings.Split/TrimSpace modelled (Base/Bytes.lean) and validated by the correspondence"],
     assumptions=["a line contains no LF (lines are split at LF by the caller)"],
@@ -25,16 +27,24 @@ PROP = dict(
 CLAIM = dict(
     text="Lean theorems over the decoder model DecOut.decOut (hand-written byte matchers for the four regular expressions, TrimExplode, the SysStat "
          "sliding scan as written) and the independent reader Spec.Out.readLine. FULL STRENGTH, for all byte strings: "
-         "decOut_sound (for every list of lines each of which is well-formed in the Appendix-B grammar or non-grammar — decidable inDomainLines — the "
-         "decoded messages carry exactly the effects the reader assigns, in line order: all 7 event kinds incl. Raw, with/without edge suffix, signed "
-         "values over the full ranges, Press = press then release, map, all 29 keys, capability lists in any order with duplicates, SysStat with any "
+         "decOut_sound (for every list of lines each of which is well-formed in the grammar of Spec/GrammarOut.lean or non-grammar — decidable inDomainLines — the "
+         "decoded messages carry exactly the effects the reader assigns, in line order: Down/Up/Press with and without edge suffix, Enc/Abs/Speed/Raw with and "
+         "without edge suffix (value_edge_ignored: the suffix of a value event carries no information, reader and decoder treat HWC#id.e=Kind:v as HWC#id=Kind:v), "
+         "signed values over the full ranges, Press = press then release, map, all 29 keys, capability lists in any order with duplicates, SysStat with any "
          "subset/order of the 20 fields, ;-lists, registers); nongrammar_silent (a line whose keyword/key is not in the grammar, key= without value, blank "
-         "line: no event, no report); kernels press_is_down_then_up, support_any_order / support_same_set (any list of parts), "
-         "sysstat_any_subset_order; regex_sources_tie (the four regex source texts of the current code are the ones the matchers implement); "
+         "line, an HWC# line with an unknown kind word: no event, no report) + unknown_kind_silent (explicit form, every left-hand side); kernels "
+         "press_is_down_then_up, support_any_order / support_same_set (the switch loop on any list of parts) and support_line_any_order / "
+         "support_lines_same_set (the same through the whole decoder on a _support= line), sysstat_any_subset_order, items_spec (reader and TrimExplode model "
+         "both meet the relational, functional specification ItemsOf of a ;-list); regex_sources_tie (the four regex source texts of the current code are the "
+         "ones the matchers implement) + regex_alternations_tie (the alternation lists parsed out of those sources are the matchers' keyword tables and name "
+         "the same sets as the reader's tables); roundtrip_out (C03 o C04: for every message list of the C03 domain the encoder's lines lie in inDomainLines "
+         "and decode to messages with exactly the effects of the originals, in order; normalisations stated at the theorem); "
          "raw_event_lost_counterexample + raw_case_would_panic for the pinned tree. "
-         "Rests on correspondence: model = RawPanelASCIIstringsToOutboundMessages (Go regexp semantics of the matchers incl. near-miss lines, Atoi overflow "
-         "clamp, TrimSpace), ParseFloat and encoding/json as oracle values. Lines with a grammar keyword and malformed arguments are outside the domain "
+         "Rests on correspondence: model = RawPanelASCIIstringsToOutboundMessages; the byte matchers vs the library's REAL compiled regexps (reached by "
+         "go:linkname; dout.rx records tie their String() to the regenerated source, dout.match records compare sub-matches on ~140 000 bounded-exhaustive "
+         "strings per run: all token strings up to length 3-5 after every keyword prefix, all single edits and sampled/all double edits of valid lines), Atoi "
+         "overflow clamp, TrimSpace; ParseFloat and encoding/json as oracle values. Lines with a grammar keyword and malformed arguments are outside the domain "
          "(C06 only).",
     note=TB,
-    technique="Lean 4 proof + model/implementation correspondence",
+    technique="Lean 4 proof + model/implementation correspondence incl. bounded-exhaustive matcher-vs-regexp records",
 )
